@@ -265,6 +265,8 @@ const WORDS: &[&str] = &[
     "a", "b", "ab", "ba", "c", "abc", "A", "ä", "a\u{308}", "é", "e\u{301}", "ﬁ", "fi", "x1", "1",
     "12", "a-b", "a.b", "'a'", "a_b", "中", "中a", "a\u{200d}b", "²", "Ⅳ", "ａ", "¨", "a,", "(b)",
     "b!", "€", "a€b", "😀", "🇩🇪", "क्ष", "-", "...", "a1b", "ß", "ǅ", "n\u{303}o", "?!", "b-a", "ab-ab",
+    // non-ASCII punctuation, ASCII symbols that are not punctuation, a mark on a digit, a non-ASCII digit
+    "«a»", "a+b", "<", "–", "¡b", "1\u{301}", "a٣",
     // words whose character n-grams are keys that start with a comment / section marker (save -> load must keep them)
     "#", "#ta", ";", ";x", "//", "//a", "%a", "[a]", "--b", "!",
 ];
@@ -818,7 +820,11 @@ impl Prop for C20 {
             if p.exists() {
                 match std::process::Command::new("python3").arg(&p).arg("--check").output() {
                     Ok(o) if o.status.success() => {}
-                    Ok(o) => errs.push(format!("tools/gen_ucd.py --check: {}", String::from_utf8_lossy(&o.stdout).trim())),
+                    Ok(o) => errs.push(format!(
+                        "tools/gen_ucd.py --check: {} {}",
+                        String::from_utf8_lossy(&o.stdout).trim(),
+                        String::from_utf8_lossy(&o.stderr).trim().lines().last().unwrap_or("")
+                    )),
                     Err(e) => errs.push(format!("tools/gen_ucd.py --check could not run: {e}")),
                 }
                 let (x, y, z) = char::UNICODE_VERSION;
